@@ -678,5 +678,344 @@ def r1c(cx):
                      loc=body.loc(body.term(p[min(len(p) - 1, 1)])), path=Q.render_path(body, p))
 
 
+
+# ---------------------------------------------------------------------------------------------------------------------
+# restart protocol, second half (R7) and "a token becomes a word only behind a test of its own id" (R8)
+TOKEN = 'yash_syntax::parser::lex::core::Token'
+PRODUCTION = re.compile(r"^yash_syntax::parser::\w+::<impl yash_syntax::parser::core::Parser<'_, '_>>::\w+$")
+VEC_IS_EMPTY = ['alloc::vec::Vec::<T, A>::is_empty']
+VEC_PUSH = ['alloc::vec::Vec::<T, A>::push']
+PLUMBING = Q.AWAIT_CALLS + Q.TRY_BRANCH + Q.PROPAGATING_CALLS + ['*::Pin::<Ptr>::new_unchecked']
+
+
+def _place_chain(du, p, depth=16):
+    """A place and its successive resolutions through single-definition temporaries, copies and references:
+    `(*_r).f` with `_r = &x.g` -> `x.g.f` (unlike DefUse.deref_origin this also looks through NAMED locals, e.g. the
+    `self` of an inlined helper)."""
+    out = [p]
+    for _ in range(depth):
+        d = du.single_def(p['l'])
+        if d is None or d[1] == 't' or d[2]['k'] != 'assign':
+            break
+        rv = d[2]['rv']
+        proj = p.get('p') or []
+        if rv['k'] == 'use' and Q.operand_place(rv['o']) is not None:
+            q = Q.operand_place(rv['o'])
+            p = {'l': q['l'], 'p': (q.get('p') or []) + proj}
+        elif rv['k'] == 'ref' and proj and proj[0] == '*':
+            q = rv['pl']
+            p = {'l': q['l'], 'p': (q.get('p') or []) + proj[1:]}
+        else:
+            break
+        out.append(p)
+    return out
+
+
+def _place_keys(du, p):
+    """{(local, field names)} over the resolutions of a place (derefs ignored; a resolution through an index etc. is skipped)."""
+    keys = set()
+    for q in _place_chain(du, p):
+        fields = []
+        for e in q.get('p') or []:
+            if isinstance(e, dict) and 'f' in e:
+                fields.append(e['f'])
+            elif e == '*':
+                continue
+            else:
+                fields = None
+                break
+        if fields is not None:
+            keys.add((q['l'], tuple(fields)))
+    return keys
+
+
+def _conds_plus(F, body, du, block):
+    """implied_conditions, plus: a bool local known to be v whose only definition able to give v is the result of a call
+    (the last conjunct of an inlined `x() && y() && z()`) makes that call's result v, together with what dominates the call."""
+    out = list(Q.implied_conditions(F, body, du, block, depth=6))
+    for org, lab, e in list(out):
+        for _ in range(3):          # `if !x` : the switch is on Not(x)
+            if lab[0] == 'bool' and org['k'] == 'unop' and org['rv']['op'] == 'Not':
+                org, lab = du.origin(org['rv']['o']), ('bool', not lab[1])
+                out.append((org, lab, e))
+    seen = set()
+    work = [(org['pl']['l'], lab[1]) for org, lab, e in out if lab[0] == 'bool' and org['k'] == 'place' and not org['pl'].get('p')]
+    while work:
+        l, val = work.pop()
+        if (l, val) in seen:
+            continue
+        seen.add((l, val))
+        keep = []
+        for b, j, node in du.defs.get(l, []):
+            if j != 't':
+                rv = node.get('rv') or {}
+                cval = str(rv['o'].get('c')) if rv.get('k') == 'use' and 'c' in rv['o'] else None
+                if cval in ('true', 'false') and (cval == 'true') != val:
+                    continue
+            keep.append((b, j, node))
+        if not keep:
+            continue
+        copies = set()
+        for b, j, node in keep:
+            q = Q.operand_place(node['rv']['o']) if j != 't' and node.get('k') == 'assign' and node['rv']['k'] == 'use' else None
+            copies.add(q['l'] if q is not None and not q.get('p') else None)
+        if len(copies) == 1 and None not in copies:
+            work.append((copies.pop(), val))          # every remaining definition copies the same local
+            continue
+        if len(keep) != 1 or keep[0][1] != 't':
+            continue
+        b, j, node = keep[0]
+        extra = list(Q.implied_conditions(F, body, du, b, depth=6))
+        out.append(({'k': 'call', 't': node, 'b': b}, ('bool', val), (b, b)))
+        out.extend(extra)
+        work.extend((org['pl']['l'], lab[1]) for org, lab, e in extra if lab[0] == 'bool' and org['k'] == 'place' and not org['pl'].get('p'))
+    return out
+
+
+def _rec_matches(F, body, du):
+    """[(switch block, producing call, {target: labels})] for every match on a Rec value."""
+    out = []
+    for b in sorted(body.live_blocks()):
+        if body.term(b)['k'] != 'switch':
+            continue
+        ec = Q.edge_condition(F, body, du, b)
+        if ec is None or ec[0]['k'] != 'discr' or not ec[0]['ty'].startswith(REC + '<'):
+            continue
+        src = Q.value_source(body, du, {'cp': {'l': ec[0]['pl']['l']}})
+        out.append((b, src, ec[1]))
+    return out
+
+
+def _consumption_events(F, body, du):
+    """Points of a production body after which a token of the input has been consumed and kept:
+    [(start block, description)]."""
+    ev = []
+    for b, t in Q.find_calls(body, [RAW, AUTO]):
+        ev.append((t['to'], pp.callee(t).split('::')[-1], t))
+    for b, src, labels in _rec_matches(F, body, du):
+        if src is None or not Q.callee_is(src, [MANUAL]):
+            continue
+        for tgt, labs in labels.items():
+            if ('variant', 'Parsed') in labs:
+                ev.append((tgt, 'take_token_manual=>Parsed', src))
+    # a production that returns Some(_) (directly or inside Rec::Parsed) has consumed what it parsed
+    for b in sorted(body.live_blocks()):
+        if body.term(b)['k'] != 'switch':
+            continue
+        ec = Q.edge_condition(F, body, du, b)
+        if ec is None or ec[0]['k'] != 'discr' or not ec[0]['ty'].startswith('core::option::Option<'):
+            continue
+        src = Q.value_source(body, du, {'cp': {'l': ec[0]['pl']['l']}})
+        if src is None or not Q.callee_is(src, [PRODUCTION]):
+            continue
+        for tgt, labs in ec[1].items():
+            if ('variant', 'Some') in labs:
+                ev.append((tgt, '%s=>Some' % pp.callee(src).split('::')[-1], src))
+    return ev
+
+
+@RS.rule('C17.R7', 'K-PASS', 'restart protocol: a production returns Rec::AliasSubstituted only while it has consumed nothing (after a kept token '
+         'it retries locally, or proves by an emptiness test of its accumulator that nothing was kept)')
+def r7(cx):
+    F = cx.F
+    n = 0
+    nev = 0
+    for b0 in F.bodies_in(['yash_syntax::parser::']):
+        if b0.root.startswith('yash_syntax::parser::core::'):
+            continue          # Rec::map and Parser::substitute_alias (the producer itself: the token it was given is replaced, not kept)
+        if not Q.find_aggregates(b0, REC, 'AliasSubstituted'):
+            continue
+        body = F.inlined(b0)
+        du = Q.DefUse(body)
+        cx.fn(body.fn)
+        events = _consumption_events(F, body, du)
+        pushes = []
+        for pb, pt in Q.find_calls(body, VEC_PUSH):
+            org = du.origin(pt['a'][0])
+            if org['k'] == 'ref':
+                pushes.append((pb, _place_keys(du, org['pl'])))
+        for gb, j, s in Q.find_aggregates(body, REC, 'AliasSubstituted'):
+            n += 1
+            # what is known to be empty where AliasSubstituted is returned
+            empty = set()
+            for org, lab, e in _conds_plus(F, body, du, gb):
+                if lab == ('bool', True) and org['k'] == 'call' and Q.callee_is(org['t'], VEC_IS_EMPTY):
+                    o = du.origin(org['t']['a'][0])
+                    if o['k'] == 'ref':
+                        empty |= {k for k in _place_keys(du, o['pl']) if k[1]}
+            recorded = {pb for pb, ks in pushes if ks & empty}
+            names = sorted({'%s.%s' % (body.local_name(l), '.'.join(fs)) for l, fs in empty if not re.match(r'^(_\d+|self)$', body.local_name(l))})
+            cx.site('%s: returns Rec::AliasSubstituted at %s; %d consumption points in the function; known empty there: %s'
+                    % (body.root, body.loc(s), len(events), names or 'nothing'))
+            for start, what, src in events:
+                nev += 1
+                p = Q.must_pass(body, [start], recorded, {gb})
+                if p:
+                    cx.violation(body.root, 'alias-substituted-after-consuming:%s' % what, 'the production can return Rec::AliasSubstituted '
+                                 'after it has consumed and kept a token (%s): the caller restarts at the replacement text, so what was '
+                                 'consumed is silently dropped (`! a` with alias a=true parses as `true`: the negation is lost); after consuming '
+                                 'something the production must parse the replacement itself' % what,
+                                 loc=body.loc(s), path=Q.render_path(body, p))
+    cx.floor(n, 5, 'returns of Rec::AliasSubstituted in productions')
+    cx.floor(nev, 10, 'consumption points examined against a return of Rec::AliasSubstituted')
+
+
+WORDLIKE = {('variant', 'Token'), ('variant', 'IoNumber'), ('variant', 'IoLocation')}
+
+
+def _token_producers(body, du, local):
+    """Follow a Token local back through moves, Rec::Parsed payloads, `?` and `.await` to every call that can have produced it.
+    Returns (calls [(block, term)], locals of type Token on the way, from_argument)."""
+    calls, toks, from_arg = [], set(), False
+    seen = set()
+    work = [local]
+    while work:
+        l = work.pop()
+        if l in seen:
+            continue
+        seen.add(l)
+        if body.locals[l].get('ty') == TOKEN:
+            toks.add(l)
+        defs = du.defs.get(l, [])
+        if not defs:
+            from_arg = from_arg or (1 <= l <= body.argc)
+            continue
+        for b, j, node in defs:
+            if j == 't':
+                if Q.callee_is(node, PLUMBING):
+                    q = Q.operand_place(node['a'][0]) if node['a'] else None
+                    if q is not None:
+                        work.append(q['l'])
+                else:
+                    calls.append((b, node))
+            elif node['k'] == 'assign':
+                rv = node['rv']
+                if rv['k'] == 'use' and Q.operand_place(rv['o']) is not None:
+                    work.append(Q.operand_place(rv['o'])['l'])
+                elif rv['k'] == 'ref':
+                    work.append(rv['pl']['l'])
+    return calls, toks, from_arg
+
+
+def _id_switches(F, body, du):
+    """Every test of a token id: [(block, key of the tested place (local, fields), {target: labels} or None for ==/!=)]."""
+    out = []
+    for b in sorted(body.live_blocks()):
+        if body.term(b)['k'] != 'switch':
+            continue
+        ec = Q.edge_condition(F, body, du, b)
+        if ec is None:
+            continue
+        org, labels = ec
+        if org['k'] == 'discr' and org['ty'].endswith('lex::core::TokenId'):
+            out.append((b, _place_keys(du, org['pl']), labels))
+        elif org['k'] == 'call' and Q.callee_is(org['t'], [re.compile(r'^<yash_syntax::parser::lex::core::TokenId as core::cmp::PartialEq>::(eq|ne)$')]):
+            for a in org['t']['a']:
+                o = du.origin(a)
+                if o['k'] == 'ref':
+                    out.append((b, _place_keys(du, o['pl']), None))
+    return out
+
+
+def _is_id_of(keys, locals_):
+    return any(l in locals_ and fs == ('id',) for l, fs in keys)
+
+
+@RS.rule('C17.R8', 'K-GUARD', 'a token becomes a word of the syntax tree only behind a test of ITS OWN id: the id of the very token taken '
+         '(operators, redirections and newlines emerging from an alias replacement are never pushed as words)')
+def r8(cx):
+    F = cx.F
+    n = 0
+    peek_validated = 0
+    CONSUMERS = [RAW, MANUAL, AUTO, PRODUCTION]
+    for b0 in F.bodies_in(['yash_syntax::parser::']):
+        uses = []
+        for b, j, s in b0.stmts():
+            if s['k'] == 'assign':
+                for o in Q.rvalue_operands(s['rv']):
+                    uses.append((b, s, o))
+        for b, t in b0.calls():
+            for o in t['a']:
+                uses.append((b, t, o))
+
+        def is_word_of_token(o):
+            p = Q.operand_place(o)
+            if p is None:
+                return False
+            pr = [e for e in (p.get('p') or []) if isinstance(e, dict) and 'f' in e]
+            return bool(pr) and pr[-1]['f'] == 'word' and pr[-1].get('adt') == TOKEN
+        if not any(is_word_of_token(o) for b, s, o in uses):
+            continue
+        body = F.inlined(b0)
+        du = Q.DefUse(body)
+        cx.fn(body.fn)
+        switches = _id_switches(F, body, du)
+        peeks = Q.find_calls(body, ["yash_syntax::parser::core::Parser::<'a, 'b>::peek_token"])
+        consumers = Q.find_calls(body, CONSUMERS)
+        uses = []
+        for b, j, s in body.stmts():
+            if s['k'] == 'assign':
+                uses += [(b, s, o) for o in Q.rvalue_operands(s['rv']) if is_word_of_token(o)]
+        for b, t in body.calls():
+            uses += [(b, t, o) for o in t['a'] if is_word_of_token(o)]
+        for ub, node, o in uses:
+            n += 1
+            x = Q.operand_place(o)['l']
+            calls, toks, from_arg = _token_producers(body, du, x)
+            own = [(sb, labels) for sb, pl, labels in switches if _is_id_of(pl, toks)]
+            own_edges = {(sb, v) for sb, labels in own for v in body.succ(sb)}
+            desc = []
+            starts = [(t['to'], pb, t) for pb, t in calls] + ([(0, None, None)] if from_arg or not calls else [])
+            for start, pb, t in starts:
+                prod = pp.callee(t).split('::')[-1] if t is not None else 'argument'
+                p = body.shortest_path(start, {ub}, removed_edges=own_edges)
+                how = 'own id tested'
+                if p is not None:
+                    # accepted alternative: the token was peeked, the PEEKED id was tested to be a word, and the take that follows
+                    # returns that very token (take_token_raw / the Parsed edge of take_token_manual; take_token_auto may substitute
+                    # and return a later token) with nothing consumed in between
+                    ok = False
+                    if t is not None and Q.callee_is(t, [RAW, MANUAL]):
+                        for kb, kt in peeks:
+                            if not body.dominates(kb, pb):
+                                continue
+                            ksw = [(sb, labels) for sb, keys, labels in switches if labels is not None and
+                                   any(fs == ('id',) and Q.value_source(body, du, {'cp': {'l': l}}) is kt for l, fs in keys)]
+                            good = {(sb, v) for sb, labels in ksw for v, labs in labels.items() if labs and set(labs) <= WORDLIKE}
+                            if not good or body.shortest_path(kt['to'], {pb}, removed={kb}, removed_edges=good) is not None:
+                                continue
+                            between = [cb for cb, ct in consumers if cb not in (pb, kb) and
+                                       cb in body.reachable(kt['to'], removed={pb, kb}) and pb in body.reachable(ct['to'], removed={kb})]
+                            if not between:
+                                ok = True
+                                break
+                    if ok:
+                        how = 'id of the peeked token tested, taken by %s with nothing consumed in between' % prod
+                        peek_validated += 1
+                    else:
+                        how = 'NO TEST of its id'
+                        cx.violation(body.root, 'word-without-own-id-test:%s' % prod, 'a token obtained from %s is used as a word although '
+                                     'its own id was not looked at (an id tested earlier belongs to a token that alias substitution has since '
+                                     'replaced): with `alias e="echo " r=">f"`, `e r a` makes `>` an argument of echo instead of a redirection; '
+                                     'a `;` or newline from a replacement is swallowed as an argument' % prod,
+                                     loc=body.loc(node), path=Q.render_path(body, p))
+                desc.append('%s: %s' % (prod, how))
+            # no edge that established "not a word" (operator, end of input) leads to the use without a new token being taken
+            for sb, labels in own:
+                if labels is None:
+                    continue
+                for v, labs in labels.items():
+                    if not labs or set(labs) <= WORDLIKE:
+                        continue
+                    p = body.shortest_path(v, {ub}, removed={pb for pb, t in calls}, removed_edges={(sb, w) for w in body.succ(sb) if w != v})
+                    if p is not None:
+                        cx.violation(body.root, 'non-word-token-as-word', 'a token whose id is %s is used as a word'
+                                     % '/'.join(sorted(l[1] for l in labs if len(l) > 1)), loc=body.loc(node), path=Q.render_path(body, [sb] + p))
+            cx.site('%s: %s.word used at %s; %s' % (body.root, body.local_name(x) or '_%d' % x, body.loc(node), '; '.join(desc)))
+    cx.floor(n, 12, 'uses of Token.word as a word in the parser')
+    cx.floor(peek_validated, 1, 'words validated through the peeked token (simple_command)')
+
+
 # --- explanation addendum (generated catalogue in DESIGN.md reads RS.explanation)
 RS.explanation += ' Added later: substitute_alias refuses a substitution only through the reviewed tests (R1c); alias identity is answered by Source::is_alias_for only (R4b); line breaks are skipped again in every alias-retry loop that skipped them before the first attempt (R5b).'
+RS.explanation += ' Wave 3: a production returns Rec::AliasSubstituted only on paths where no token has been consumed and kept, unless an emptiness test of the accumulator that every consumed piece is pushed into dominates the return (R7); every Token.word moved into the syntax tree is behind a switch on the id of that very token, or of the peeked token that take_token_raw / take_token_manual=>Parsed is bound to return, never take_token_auto (R8).'
